@@ -522,4 +522,48 @@ theorem cmdText_is_parse_step (st : PState) (p : Params) (o : Opt) (s : Str) (h 
 example : (applyOpt false [] Params.empty ⟨['n'], .int, .i 0, none, ['n'], [], [], none⟩ false ['x']).2.toBool = false := by
   decide
 
+/-- **plugin entries that do not load** (`name = module:attr` with no or two colons, a module that does not import, an
+    attribute the module does not have): for reporters and backends ONE such entry anywhere in the section ends the
+    command in a traceback (exit code 3) whatever name is chosen, wherever, also a core name (every entry is imported
+    when the command object is created); for loaders only the entry of the chosen name is imported (an exception
+    leaves `DoitMain.run`), the other entries do not matter; when every entry loads, loading changes nothing. -/
+theorem plugin_loading (cat : Category) (w : Where) (core : List Str) (sect : List (Str × Str))
+    (mods : List (Str × List Str)) (n : Str) :
+    (cat ≠ .loader → allLoad mods sect = false → pickLoaded cat w core sect mods n = .traceback3) ∧
+    (∀ sect', alookup n sect' = alookup n sect → (alookup n sect).isSome →
+        pickLoaded .loader w core sect' mods n = pickLoaded .loader w core sect mods n) ∧
+    (allLoad mods sect = true → pickLoaded cat w core sect mods n = pick cat w (nameTable core sect) n) := by
+  refine ⟨?_, ?_, ?_⟩
+  · intro hc h
+    cases cat <;> simp_all [pickLoaded]
+  · intro sect' he hs
+    cases h : alookup n sect with
+    | none => simp [h] at hs
+    | some loc => simp [pickLoaded, he, h]
+  · intro h
+    cases cat
+    · simp [pickLoaded, h]
+    · simp [pickLoaded, h]
+    · cases hl : alookup n sect with
+      | none => simp [pickLoaded, hl]
+      | some loc =>
+        have hm : (n, loc) ∈ sect := by
+          clear h
+          induction sect with
+          | nil => simp [alookup] at hl
+          | cons x r ih =>
+            obtain ⟨a, b⟩ := x
+            by_cases ha : a = n
+            · subst ha; simp [alookup_cons] at hl; subst hl; simp
+            · simp [alookup_cons, ha] at hl; exact List.mem_cons_of_mem _ (ih hl)
+        have hload : (loadPlugin mods loc).toBool = true := by
+          have := List.all_eq_true.1 h (n, loc) hm
+          simpa using this
+        simp [pickLoaded, hl, hload, pick, nameTable_lookup]
+
+example : pickLoaded .reporter .cmdline [['z']] [(['q'], ['n','o',':','X'])] [(['m'], [['C']])] ['z'] = .traceback3 ∧
+          pickLoaded .loader .config [] [(['q'], ['n','o',':','X']), (['p'], ['m',':','C'])] [(['m'], [['C']])] ['p']
+            = .cls (.plugin ['m',':','C']) ∧
+          pickLoaded .loader .config [] [(['q'], ['m'])] [(['m'], [['C']])] ['q'] = .escapes := by decide
+
 end DoitModel.C16
